@@ -22,6 +22,35 @@ T2 = {
 }
 
 
+def accumulated_vectors(lf):
+    """locals of the two vectors handed to the final Labels::new(<labels>, Some(<times>)) call of
+    load_from_strings, found through the call's operands (not through variable names)"""
+    def chase(op):
+        n = 0
+        while op is not None and op.get("k") in ("move", "copy") and not op["place"]["proj"] and n < 8:
+            l = op["place"]["local"]
+            ds = [d for d in lf.defs().get(l, []) if not lf.is_cleanup(d[0])]
+            if len(ds) == 1 and ds[0][1] != "term":
+                rv = ds[0][2]["rv"]
+                if rv["k"] == "use" and rv["op"].get("k") in ("move", "copy") and not rv["op"]["place"]["proj"]:
+                    op = rv["op"]
+                    n += 1
+                    continue
+                if rv["k"] == "aggregate" and len(rv["ops"]) == 1 and "Option" in str(rv["kind"].get("def", "")):
+                    op = rv["ops"][0]
+                    n += 1
+                    continue
+            return l
+        return None
+    roles = {}
+    for bb, t in lf.calls():
+        c = t["callee"]
+        if c["k"] == "fndef" and cm.callee_name(c) == LNEW and len(t["args"]) == 2:
+            roles["labels"] = chase(t["args"][0])
+            roles["times"] = chase(t["args"][1])
+    return roles
+
+
 def run(ctx):
     ctx.rule("C17-R1", "convergence: &[S;N] and Vec<String> delegate to the &[S] impl with an identity view and the same condition; &[S] calls Labels::load_from_strings which ends in Labels::new(labels, Some(times)); Vec<Label> calls Labels::new(self, None)")
     ctx.rule("C17-R2", "times are inert without alignment: the field Labels::times is read only through its accessor, whose only use in synthesis is under the alignment flag; the parsed labels do not depend on sampling rate / frame period")
@@ -67,11 +96,11 @@ def run(ctx):
     if lf is not None:
         eb = ExprBuilder(lf)
         finals = [(bb, e) for bb, e, item in paths.return_exprs(lf, eb) if e[0] == "call" and e[1] == LNEW]
-        names = {d.get("name"): l for l, d in enumerate(lf.locals)}
         okf = False
+        roles = accumulated_vectors(lf)   # the two accumulated vectors, by role
         for bb, e in finals:
             a0, a1 = e[2]
-            if a0[0] == "call" and a0[1].endswith("with_capacity") or (a0[0] == "var" and a0[2] == "labels"):
+            if a0[0] == "call" and a0[1].endswith("with_capacity") or a0[0] == "var":
                 if a1[0] == "agg" and a1[1].endswith("Option::Some"):
                     okf = True
         if okf:
@@ -118,7 +147,17 @@ def run(ctx):
             ctx.fail("C17-R2", bd.path, "times() without flag", "time stamps are read although alignment may be off", cm.loc_of(t["span"]))
     if lf is not None:
         tn = Taint(lf, tainted_args=[1, 2], program=p)
-        lab = [l for l, d in enumerate(lf.locals) if d.get("name") in ("labels", "label")]
+        # the labels vector and every value pushed into it
+        lab = [roles["labels"]] if "labels" in roles else []
+        for bb_, t_ in lf.calls():
+            c_ = t_["callee"]
+            if c_["k"] == "fndef" and cm.callee_name(c_).endswith("Vec::<T, A>::push"):
+                rl = t_["args"][0]["place"]["local"]
+                base_ = [ditem["rv"]["place"]["local"] for dbb, didx, ditem in lf.defs().get(rl, []) if didx != "term" and ditem["rv"]["k"] == "ref"]
+                if base_ and base_[0] == roles.get("labels") and t_["args"][1].get("k") in ("move", "copy"):
+                    lab.append(t_["args"][1]["place"]["local"])
+        if not lab:
+            ctx.fail("C17-R2", lf.path, "labels vector", "cannot identify the accumulated labels vector", lf.loc())
         bad = [l for l in lab if tn.local_tainted(l)]
         if bad:
             ctx.fail("C17-R2", lf.path, "labels depend on rate", "the parsed labels depend on sampling_rate / fperiod (tainted locals %s)" % [lf.local_name(l) for l in bad], lf.loc())
@@ -147,7 +186,7 @@ def run(ctx):
             ctx.ok("C17-R5", "T1 %s  %s" % (s.key, s.detail[:90]), s.loc(), r)
             continue
         ent = T2.get(s.key)
-        if ent and re.search(ent[0], s.detail):
+        if ent and re.search(ent[0], s.shape()):
             ctx.ok("C17-R5", "T2 %s" % s.key, s.loc(), ent[1])
             continue
         ctx.fail("C17-R5", s.fn, "%s %s" % (s.kind, s.api), "unaudited panic-capable construct in the label reader: `%s` (%s)" % (s.detail[:160], s.why), s.loc())
@@ -252,6 +291,7 @@ def r4(ctx, p, lf):
         return
     h, lb = loops[0]
     pushes = {"labels": [], "times": []}
+    roles = accumulated_vectors(lf)
     for bb, t in lf.calls():
         c = t["callee"]
         if c["k"] == "fndef" and cm.callee_name(c).endswith("Vec::<T, A>::push") and bb in lb:
@@ -261,9 +301,10 @@ def r4(ctx, p, lf):
             base = None
             for dbb, didx, ditem in lf.defs().get(l, []):
                 if didx != "term" and ditem["rv"]["k"] == "ref":
-                    base = lf.local_name(ditem["rv"]["place"]["local"])
-            if base in pushes:
-                pushes[base].append(bb)
+                    base = ditem["rv"]["place"]["local"]
+            for rn in ("labels", "times"):
+                if base is not None and roles.get(rn) == base:
+                    pushes[rn].append(bb)
     if len(pushes["labels"]) != len(pushes["times"]) or not pushes["labels"]:
         ctx.fail("C17-R4", lf.path, "push counts", "labels is pushed at %d sites and times at %d" % (len(pushes["labels"]), len(pushes["times"])), lf.loc())
         return
